@@ -163,6 +163,29 @@ def work_patho(ctx, k):
         check_format(ctx, b, fmt, 'patho:%s' % f.__name__)
 
 
+def work_dup_exponent(ctx, k):
+    """an input the validator rejects but the writers may meet: one contraction lists the same exponent twice with two
+    non-zero coefficients.  A format either refuses it or carries both coefficients (with their exponent) - it never writes it
+    with one of them missing"""
+    from basis_set_exchange import writers
+    rng = random.Random(ctx.seed * 43 + k)
+    b = gen.gen_basis(rng, nel=1, ecp_prob=0.0, ecp_only_prob=0.0, allow_fused=False, lmax=1)
+    el = next(iter(b['elements'].values()))
+    c1, c2 = rng.choice([('0.4321', '0.1234'), ('0.75', '-0.25')])
+    el['electron_shells'].append({'function_type': 'gto', 'region': '', 'angular_momentum': [0], 'exponents': ['7.125', '7.125', '0.5625'],
+                                  'coefficients': [[c1, c2, '0.6875']]})
+    for fmt in writers.write._writer_map:
+        w = impl.call(writers.write_formatted_basis_str, copy.deepcopy(b), fmt)
+        ctx.case((k, fmt, 'dup-exponent'), True, 'dup-exponent:' + ('refused' if w[0] != 'ok' else 'written'))
+        if w[0] != 'ok' or fmt in ROUNDING_FORMATS:
+            continue
+        have = text_values(w[1])
+        lost = missing([Decimal(c1), Decimal(c2)], have)
+        if lost and fmt not in ('fhiaims', ):
+            ctx.violation('writers.' + fmt, 'dup-exponent-coefficient-lost', 'a contraction that lists one exponent twice is written in %s without the coefficient %s (neither refused nor complete)'
+                          % (fmt, lost[0]), {'kind': 'dup-exponent', 'k': k, 'fmt': fmt, 'input': b})
+
+
 def work_heavy(ctx, z):
     """one generated element at the upper end of the periodic table (where some formats stop) through every format"""
     from basis_set_exchange import writers
@@ -284,6 +307,7 @@ def run(ctx):
     store.parallel(ctx, work_generated, [ctx.seed * 59 + i for i in range(ctx.budget(80, 4000))])
     store.parallel(ctx, work_patho, list(range(len(gen.PATHOLOGICAL) * ctx.budget(1, 20))))
     store.parallel(ctx, work_heavy, [86, 96, 97, 98, 99, 103, 104, 118])
+    store.parallel(ctx, work_dup_exponent, list(range(ctx.budget(2, 40))))
     if ctx.model is not None:
         store.parallel(ctx, work_layout_store, pairs if ctx.thorough() else pairs[:12])
         store.parallel(ctx, work_layout_generated, [ctx.seed * 61 + i for i in range(ctx.budget(20, 1500))])
